@@ -692,6 +692,378 @@ example :
   · rintro d _ ⟨lst, e, _⟩
     simp [l, Led.getS, KV.get] at e
 
+/-! ### … and established: the block in which a receipt is accepted takes the transaction off its list -/
+
+/-- a transaction of an index-checked pair inside one hub whose request has been accepted (the pair's counter has reached
+its index) -/
+structure PairInv (env : Env) (l : Led) (t : TxId) : Prop where
+  ordered : OrderedDst env l t.to
+  bound : t.index ≤ reqCounter l t.frm t.to
+  loc : t.frm.bxh = t.to.bxh
+
+/-- a request that names a transaction the pair's counter has passed is not handled (inside one hub there is no notice) -/
+theorem handleIBTP_known_request_refused (env : Env) (l : Led) (i : Ibtp) (t : TxId) (r : Led × String)
+    (hI : PairInv env l t)
+    (hfr : i.frm = some t.frm) (hto : i.to = some t.to) (hix : i.index = t.index) (hreq : i.typ.isRequest = true)
+    (h : handleIBTP env l i = .ok r) : False := by
+  obtain ⟨hd, hb, hloc⟩ := hI
+  obtain ⟨ck, hck⟩ := handleIBTP_ok_checked h
+  obtain ⟨e1, e2⟩ := checkIBTP_ends hck
+  have hsrc : ck.src = t.frm := by rw [hfr] at e1; exact (Option.some.inj e1).symm
+  have hdst : ck.dst = t.to := by rw [hto] at e2; exact (Option.some.inj e2).symm
+  have hn : ck.notice = false := checkIBTP_local_no_notice hck (by rw [hsrc, hdst]; exact hloc)
+  have hnb : ck.isBatch = false := orderedDst_not_batch (by rw [hdst]; exact hd) hck hreq hn
+  have hidx := C02_accept_needs_next_index env l i ck hck hreq hn hnb
+  unfold reqCounter at hb
+  rw [hsrc, hdst] at hidx
+  omega
+
+/-- **one handled IBTP and the record of a known transaction**: the record is untouched, or the IBTP is a receipt for exactly that
+transaction and the record keeps its deadline while its status makes the step of the receipt's event -/
+theorem handleIBTP_known_rec {env : Env} {l : Led} {i : Ibtp} {r : Led × String} {t : TxId}
+    (hI : PairInv env l t) (h : handleIBTP env l i = .ok r) :
+    r.1.getS (.txRec t) = l.getS (.txRec t) ∨
+    (i.typ.isResponse = true ∧ i.frm = some t.frm ∧ i.to = some t.to ∧ i.index = t.index ∧
+      ∃ rec st', l.getS (.txRec t) = some (.trec rec) ∧ txFsmStep rec.status (receiptEvent i.typ.toNat) = some st' ∧
+        r.1.getS (.txRec t) = some (.trec { rec with status := st' })) := by
+  obtain ⟨ck, hck⟩ := handleIBTP_ok_checked h
+  obtain ⟨e1, e2⟩ := checkIBTP_ends hck
+  have h0 := h
+  unfold handleIBTP at h
+  simp only [hck] at h
+  split at h
+  · cases h
+  · rename_i l1 c hr
+    have hafter : r.1.getS (.txRec t) = l1.getS (.txRec t) := by
+      have hn : (notifySrcDst env l1 ck.src ck.dst c ck.isBatch).getS (.txRec t) = l1.getS (.txRec t) :=
+        notifySrcDst_frameA _ _ _ _ _ _ _ (rec_not_aux t)
+      have hp := processIBTP_rec (notifySrcDst env l1 ck.src ck.dst c ck.isBatch) i ck c t
+      generalize hpr : processIBTP (notifySrcDst env l1 ck.src ck.dst c ck.isBatch) i ck c = pr at h hp
+      obtain ⟨l3, ret⟩ := pr
+      simp only at h hp
+      split at h
+      · split at h
+        · cases h
+        · cases h
+          show ((l3.post .audit).post .audit).getS _ = _
+          simp only [Led.getS_post]
+          rw [hp, hn]
+      · cases h; rw [hp, hn]
+    by_cases hreq : i.typ.isRequest = true
+    · simp only [hreq, if_true] at hr
+      have hid : ∀ (ht : t = { frm := ck.src, to := ck.dst, index := i.index }), False := by
+        intro ht
+        exact handleIBTP_known_request_refused env l i t r hI (by rw [e1, ht]) (by rw [e2, ht]) (by rw [ht]) hreq h0
+      rcases beginTransaction_rec hr t with h1 | ⟨ht, _⟩ | ⟨ht, _⟩
+      · left; rw [hafter, h1]
+      · exact (hid ht).elim
+      · exact (hid ht).elim
+    · simp only [hreq, if_false, Bool.false_eq_true] at hr
+      split at hr
+      · rename_i hresp
+        split at hr
+        · cases hr
+        · rename_i y hy
+          cases hr
+          rcases tmReport_rec hy t with h1 | ⟨ht, rec, st', h2, h3, h4⟩
+          · left; rw [hafter, h1]
+          · right
+            refine ⟨hresp, by rw [e1, ht], by rw [e2, ht], by rw [ht], rec, st', ?_, h3, ?_⟩
+            · rw [ht]; exact h2
+            · rw [hafter, ht]; exact h4
+      · cases hr
+
+/-- a receipt's event leads to a final status, whatever the status before -/
+theorem receipt_step_final (s s' : Status) (ty : IType) (hr : ty.isResponse = true)
+    (h : txFsmStep s (receiptEvent ty.toNat) = some s') : s'.isFinal = true := by
+  cases ty with
+  | interchain => cases hr
+  | other n => cases hr
+  | receiptSuccess => cases s <;> cases s' <;> revert h <;> decide
+  | receiptFailure => cases s <;> cases s' <;> revert h <;> decide
+  | receiptRollback => cases s <;> cases s' <;> revert h <;> decide
+
+
+theorem isRequest_of_isResponse {ty : IType} (h : ty.isResponse = true) : ty.isRequest = false := by
+  cases ty <;> simp_all [IType.isRequest, IType.isResponse]
+
+theorem checkIBTP_response_targetErr {env : Env} {l : Led} {i : Ibtp} {ck : Checked} (h : checkIBTP env l i = .ok ck)
+    (hresp : i.typ.isResponse = true) : ck.targetErr = false := by
+  have hreq := isRequest_of_isResponse hresp
+  unfold checkIBTP at h
+  repeat' (first | (cases h <;> simp_all) | split at h | simp only at h)
+
+/-- the result text of a handled receipt is never "begin_failure" (that is the answer to a request whose destination is unusable) -/
+theorem handleIBTP_response_ret {env : Env} {l : Led} {i : Ibtp} {r : Led × String} (h : handleIBTP env l i = .ok r)
+    (hresp : i.typ.isResponse = true) : r.2 ≠ "begin_failure" := by
+  obtain ⟨ck, hck⟩ := handleIBTP_ok_checked h
+  have hte := checkIBTP_response_targetErr hck hresp
+  have hret : ∀ (l' : Led) (c : StatusChange), (processIBTP l' i ck c).2 ≠ "begin_failure" := by
+    intro l' c
+    unfold processIBTP
+    simp only [hte]
+    split <;> (simp only; split <;> decide)
+  unfold handleIBTP at h
+  simp only [hck] at h
+  split at h
+  · cases h
+  · rename_i l1 c hr
+    generalize hpr : processIBTP (notifySrcDst env l1 ck.src ck.dst c ck.isBatch) i ck c = pr at h
+    have := hret (notifySrcDst env l1 ck.src ck.dst c ck.isBatch) c
+    rw [hpr] at this
+    obtain ⟨l3, ret⟩ := pr
+    simp only at h this
+    split at h
+    · split at h
+      · cases h
+      · cases h; exact this
+    · cases h; exact this
+
+/-- the receipt of a receipt transaction never carries the begin-failure mark -/
+theorem applyTx_response_txStatus (env : Env) (l : Led) (s : String) (i : Ibtp) (p : ProofKind) (inv : Option String)
+    (hresp : i.typ.isResponse = true) : (applyTx env l (.ibtp s i p) inv).2.rcpt.txStatus = 0 := by
+  have hres : (mkRcpt (applyBxh env (txStart l) (.ibtp s i p) inv).2.1).txStatus = 0 := by
+    unfold applyBxh
+    split
+    · rfl
+    · simp only
+      split
+      · rename_i l' ret hok
+        have := handleIBTP_response_ret hok hresp
+        simp only [mkRcpt]
+        rw [if_neg (by simpa using this)]
+      · split
+        · split <;> rfl
+        · rfl
+  unfold applyTx
+  simp only
+  split
+  · exact hres
+  · exact hres
+
+
+theorem PairInv.conv {l : Led} {t : TxId} {e1 e2 : Env} (hc : e2.cache = e1.cache) (hb : e2.cfg.bxh = e1.cfg.bxh)
+    (h : PairInv e1 l t) : PairInv e2 l t := ⟨orderedDst_env hc hb h.ordered, h.bound, h.loc⟩
+
+/-- **one transaction of a block and a known transaction `t`**: what is known of `t` stays known, and the record of `t` is
+untouched — or the transaction is a receipt for `t`, and the record keeps its deadline while the status makes the receipt's step -/
+theorem applyTx_known_rec (env : Env) (l : Led) (tx : Tx) (inv : Option String) (t : TxId)
+    (hI : PairInv env l t) (hnd : ∀ sg args, tx ≠ .bvm sg "interchain" "DeleteInterchain" args) :
+    PairInv env (applyTx env l tx inv).1 t ∧
+    ((applyTx env l tx inv).1.getS (.txRec t) = l.getS (.txRec t) ∨
+     (∃ s i p, tx = .ibtp s i p ∧ i.typ.isResponse = true ∧ i.frm = some t.frm ∧ i.to = some t.to ∧ i.index = t.index ∧
+       ∃ rec st', l.getS (.txRec t) = some (.trec rec) ∧ txFsmStep rec.status (receiptEvent i.typ.toNat) = some st' ∧
+         (applyTx env l tx inv).1.getS (.txRec t) = some (.trec { rec with status := st' }))) := by
+  have hsvc : ∀ c sid, (applyTx env l tx inv).1.getS (.svc c sid) = l.getS (.svc c sid) := by
+    intro c sid
+    cases applyTx_effect env l tx inv with
+    | nothing h => rw [h]; rfl
+    | ibtp s i p env' r _ _ _ _ h5 h6 => rw [h6, handleIBTP_svc_frame h5]; rfl
+    | bvm s c' m args r _ h2 h3 => rw [h3, applyBvm_frame h2 _ (by intro x e; cases e)]; rfl
+  refine ⟨⟨hI.ordered.mono hsvc, ?_, hI.loc⟩, ?_⟩
+  · rcases C02_tx_counter_step env l tx inv t.frm t.to hI.ordered hnd with h | ⟨h, _⟩ <;> have := hI.bound <;> omega
+  · cases applyTx_effect env l tx inv with
+    | nothing h => left; rw [h]; rfl
+    | bvm s c m args r _ h2 h3 =>
+      left; rw [h3, applyBvm_frame h2 _ (by intro x e; cases e)]; rfl
+    | ibtp s i p env' r h1 h2 h3 _ h5 h6 =>
+      have hI' : PairInv env' (txStart l) t :=
+        ⟨orderedDst_env h2 h3 (hI.ordered.mono (fun _ _ => rfl)), hI.bound, hI.loc⟩
+      rcases handleIBTP_known_rec hI' h5 with e | ⟨hresp, hfr, hto, hix, rec, st', g1, g2, g3⟩
+      · left; rw [h6, e]; rfl
+      · right
+        exact ⟨s, i, p, h1, hresp, hfr, hto, hix, rec, st', g1, g2, by rw [h6]; exact g3⟩
+
+
+/-- its receipt is a failure (transaction level) -/
+theorem C04_known_request_refused (env : Env) (l : Led) (tx : Tx) (inv : Option String) (t : TxId)
+    (hI : PairInv env l t) (s : String) (i : Ibtp) (p : ProofKind) (htx : tx = .ibtp s i p)
+    (hfr : i.frm = some t.frm) (hto : i.to = some t.to) (hix : i.index = t.index) (hreq : i.typ.isRequest = true) :
+    (applyTx env l tx inv).2.rcpt.ok = false := by
+  have hI0 : PairInv env (txStart l) t := ⟨hI.ordered.mono (fun _ _ => rfl), hI.bound, hI.loc⟩
+  have hres : ∀ ret, (applyBxh env (txStart l) tx inv).2.1 ≠ .ok ret := by
+    intro ret hh
+    subst htx
+    unfold applyBxh at hh
+    split at hh
+    · cases hh
+    · simp only at hh
+      split at hh
+      · rename_i l' ret' hok
+        exact handleIBTP_known_request_refused env (txStart l) i t (l', ret') hI0 hfr hto hix hreq hok
+      · split at hh
+        · split at hh <;> cases hh
+        · cases hh
+  unfold applyTx
+  simp only
+  split
+  · simp only
+    cases hr : (applyBxh env (txStart l) tx inv).2.1 with
+    | ok ret => exact absurd hr (hres ret)
+    | error e =>
+      have hr' : (applyBxh env { l with journal := [], events := [] } tx inv).2.1 = .error e := hr
+      rw [hr']; rfl
+  · rfl
+
+/-- what the bookkeeping decides for an accepted receipt of a transaction whose record is final: take it off the list its record names -/
+theorem timeoutAct_receipt_final (cfg : Cfg) (l : Led) (h : Nat) (s : String) (i : Ibtp) (p : ProofKind) (rc : Rcpt) (t : TxId) (r : Rec)
+    (hresp : i.typ.isResponse = true) (hfr : i.frm = some t.frm) (hto : i.to = some t.to) (hix : i.index = t.index)
+    (hts : rc.txStatus = 0) (hdst : (t.to.chain == cfg.bxh) = false)
+    (hrec : l.getS (.txRec t) = some (.trec r)) (hf : r.status.isFinal = true) :
+    timeoutAct cfg l h (.ibtp s i p) rc = .remove r.height t := by
+  have hreq := isRequest_of_isResponse hresp
+  have hid : ({ frm := t.frm, to := t.to, index := i.index } : TxId) = t := by rw [hix]
+  unfold timeoutAct
+  simp only [hfr, hto, hid, hreq, hresp, hdst, hts, hrec, hf]
+  simp
+
+/-- the tail of a block (bookkeeping, timeout step) keeps a final record that is not on the list of the block's height -/
+theorem block_tail_final_stays (cfg : Cfg) (n : Node) (txs : List (Tx × Bool)) (t : TxId) (st : Status)
+    (hA : FinalInv { cfg := cfg, cache := n.cache, height := 0, txIndex := 0 } (applyTxs cfg n.cache (n.height + 1) n.led txs).led t st)
+    (hnl : TId.single t ∉ getTimeoutList
+      (setTimeoutList cfg (applyTxs cfg n.cache (n.height + 1) n.led txs).led (n.height + 1) (txs.map (·.1))
+        (applyTxs cfg n.cache (n.height + 1) n.led txs).rcpts) (n.height + 1)) :
+    FinalInv { cfg := cfg, cache := (execBlock cfg n txs).1.cache, height := 0, txIndex := 0 } (execBlock cfg n txs).1.led t st := by
+  obtain ⟨o1, o2, o3⟩ := hA
+  unfold execBlock
+  simp only
+  generalize hAA : applyTxs cfg n.cache (n.height + 1) n.led txs = A at o1 o2 o3 hnl
+  have hfin : ∀ k, (setTimeoutRollback (setTimeoutList cfg A.led (n.height + 1) (txs.map (·.1)) A.rcpts) (n.height + 1)).finalise.getS k =
+      (setTimeoutRollback (setTimeoutList cfg A.led (n.height + 1) (txs.map (·.1)) A.rcpts) (n.height + 1)).getS k :=
+    fun k => getS_of_store (finalise_store _) k
+  refine ⟨?_, ?_, ?_⟩
+  · refine o1.mono (fun c sid => ?_)
+    rw [hfin, setTimeoutRollback_frame _ _ _ (by intro x e; cases e) (by intro x e; cases e),
+      setTimeoutList_getS _ _ _ _ _ _ (by intro x e; cases e)]
+  · have := C02_timeout_steps_keep_counters cfg A.led (n.height + 1) (txs.map (·.1)) A.rcpts t.frm t.to
+    rw [reqCounter_congr (fun x => hfin _) t.frm t.to, this]
+    exact o2
+  · rw [recStatus_congr (hfin _), recStatus_congr (Bxh.Props.C06.C06_not_listed_untouched _ _ t hnl),
+      recStatus_congr (setTimeoutList_getS _ _ _ _ _ _ (by intro x e; cases e))]
+    exact o3
+
+
+/-- an open (not yet final) one-to-one transaction at a block boundary (`cur` = height of the last block): its pair is
+index-checked and has passed its index, it has a record, and on the timeout lists still to come it occurs at most once, and only
+on the list its record names -/
+structure OpenInv (env : Env) (l : Led) (cur : Nat) (t : TxId) (rec0 : Rec) : Prop where
+  pair : PairInv env l t
+  recd : l.getS (.txRec t) = some (.trec rec0)
+  cnt : ∀ d, cur < d → listCount l d t ≤ 1
+  only : ∀ d, cur < d → listedAt l d t → d = rec0.height
+
+/-- **the block in which a transaction becomes final takes it off the timeout list**: an open transaction whose record is final
+after the block's transactions (a receipt for it was accepted in this block) is final and on no list still to come when the block
+ends — so the timeout step can never touch it again (`C04_block_history_final_stays_unlisted` from there on).  The block is any
+block without the unguarded `DeleteInterchain` whose bookkeeping is not abandoned (`abort`: a successful receipt without any
+record, which the model driver reports as it reports `listedfinal`) -/
+theorem C04_block_finalising_unlists (cfg : Cfg) (n : Node) (txs : List (Tx × Bool)) (t : TxId) (rec0 : Rec) (st : Status)
+    (hO : OpenInv { cfg := cfg, cache := n.cache, height := 0, txIndex := 0 } n.led n.height t rec0)
+    (hopen : rec0.status.isFinal = false)
+    (hdst : (t.to.chain == cfg.bxh) = false)
+    (hnd : ∀ p ∈ txs, ∀ sg args, p.1 ≠ .bvm sg "interchain" "DeleteInterchain" args)
+    (hna : (((txs.map (·.1)).zip (applyTxs cfg n.cache (n.height + 1) n.led txs).rcpts).map
+      (fun p => timeoutAct cfg (applyTxs cfg n.cache (n.height + 1) n.led txs).led (n.height + 1) p.1 p.2)).contains .abort = false)
+    (hend : recStatus (applyTxs cfg n.cache (n.height + 1) n.led txs).led t = some st) (hf : st.isFinal = true) :
+    FinalInvL { cfg := cfg, cache := (execBlock cfg n txs).1.cache, height := 0, txIndex := 0 } (execBlock cfg n txs).1.led
+      (execBlock cfg n txs).1.height t st := by
+  let e0 : Env := { cfg := cfg, cache := n.cache, height := 0, txIndex := 0 }
+  have conv : ∀ {l' : Led} (idx : Nat), PairInv e0 l' t → PairInv { cfg := cfg, cache := n.cache, height := n.height + 1, txIndex := idx } l' t :=
+    fun idx h => PairInv.conv (e1 := e0) (e2 := { cfg := cfg, cache := n.cache, height := n.height + 1, txIndex := idx }) rfl rfl h
+  have conv' : ∀ {l' : Led} (idx : Nat), PairInv { cfg := cfg, cache := n.cache, height := n.height + 1, txIndex := idx } l' t → PairInv e0 l' t :=
+    fun idx h => PairInv.conv (e1 := { cfg := cfg, cache := n.cache, height := n.height + 1, txIndex := idx }) (e2 := e0) rfl rfl h
+  -- (1) requests naming `t` are refused all through the block
+  have loopQ := applyTxs_zip_inv cfg n.cache (n.height + 1)
+    (fun tx => ∀ sg args, tx ≠ .bvm sg "interchain" "DeleteInterchain" args)
+    (fun l => PairInv e0 l t)
+    (fun tx rc => ∀ s i p, tx = .ibtp s i p → i.frm = some t.frm → i.to = some t.to → i.index = t.index → i.typ.isRequest = true → rc.ok = false)
+    (fun idx l tx inv hg hp => conv' idx (applyTx_known_rec _ l tx inv t (conv idx hp) hg).1)
+    (fun idx l tx inv _ hp s i p htx hfr hto hix hreq => C04_known_request_refused _ l tx inv t (conv idx hp) s i p htx hfr hto hix hreq)
+    n.led hO.pair txs hnd
+  obtain ⟨hPend, hQ⟩ := loopQ
+  -- (2) the record keeps its deadline; it changes once, by a receipt of this block, and is final from then on
+  have loopE := applyTxs_zip_exists cfg n.cache (n.height + 1)
+    (fun tx => ∀ sg args, tx ≠ .bvm sg "interchain" "DeleteInterchain" args)
+    (fun l => PairInv e0 l t ∧ l.getS (.txRec t) = some (.trec rec0))
+    (fun l => PairInv e0 l t ∧ ∃ st', st'.isFinal = true ∧ l.getS (.txRec t) = some (.trec { rec0 with status := st' }))
+    (fun tx rc => ∃ s i p, tx = .ibtp s i p ∧ i.typ.isResponse = true ∧ i.frm = some t.frm ∧ i.to = some t.to ∧ i.index = t.index ∧ rc.txStatus = 0)
+    (by
+      intro idx l tx inv hg ⟨hp, hr⟩
+      obtain ⟨hp', hch⟩ := applyTx_known_rec _ l tx inv t (conv idx hp) hg
+      rcases hch with e | ⟨s, i, p, htx, hresp, hfr, hto, hix, rec, st', g1, g2, g3⟩
+      · left; exact ⟨conv' idx hp', by rw [e]; exact hr⟩
+      · right
+        rw [hr] at g1
+        cases g1
+        refine ⟨⟨conv' idx hp', st', receipt_step_final _ _ _ hresp g2, g3⟩, s, i, p, htx, hresp, hfr, hto, hix, ?_⟩
+        rw [htx]; exact applyTx_response_txStatus _ l s i p inv hresp)
+    (by
+      intro idx l tx inv hg ⟨hp, st', hf', hr⟩
+      obtain ⟨hp', hch⟩ := applyTx_known_rec _ l tx inv t (conv idx hp) hg
+      rcases hch with e | ⟨s, i, p, htx, hresp, hfr, hto, hix, rec, st'', g1, g2, g3⟩
+      · exact ⟨conv' idx hp', st', hf', by rw [e]; exact hr⟩
+      · exfalso
+        rw [hr] at g1
+        cases g1
+        rw [C04_final_absorbing_step _ _ hf'] at g2
+        cases g2)
+    n.led ⟨hO.pair, hO.recd⟩ txs hnd
+  generalize hAA : applyTxs cfg n.cache (n.height + 1) n.led txs = A at hna hend hPend hQ loopE
+  rcases loopE with ⟨_, hr0⟩ | ⟨⟨_, st', hf', hrA⟩, pr, hpr, s, i, p, htx, hresp, hfr, hto, hix, hts⟩
+  · -- nothing changed the record: it is not final
+    exfalso
+    unfold recStatus at hend
+    rw [hr0] at hend
+    cases hend
+    rw [hopen] at hf; cases hf
+  have hst : st' = st := by
+    unfold recStatus at hend
+    rw [hrA] at hend
+    cases hend; rfl
+  subst hst
+  -- (3) the bookkeeping: `t` is taken off the list its record names and put on none
+  have hrem : TOAct.remove rec0.height t ∈ (((txs.map (·.1)).zip A.rcpts).map (fun p => timeoutAct cfg A.led (n.height + 1) p.1 p.2)) := by
+    refine List.mem_map.mpr ⟨pr, hpr, ?_⟩
+    rw [htx]
+    exact timeoutAct_receipt_final cfg A.led (n.height + 1) s i p pr.2 t { rec0 with status := st' } hresp hfr hto hix hts hdst hrA hf'
+  have hnoadd : ∀ d, t ∉ addsAt d (((txs.map (·.1)).zip A.rcpts).map (fun p => timeoutAct cfg A.led (n.height + 1) p.1 p.2)) := by
+    intro d h1
+    have hm := mem_addsAt h1
+    obtain ⟨pr', hpr', hact⟩ := List.mem_map.mp hm
+    obtain ⟨s', i', p', htx', hfr', hto', hix', hreq', hok'⟩ := timeoutAct_add hact
+    have := hQ pr' hpr' s' i' p' htx' hfr' hto' hix' hreq'
+    rw [this] at hok'
+    cases hok'
+  have hcntA : ∀ d, n.height < d → listCount A.led d t ≤ 1 := by
+    intro d hd
+    rw [← hAA]
+    exact Nat.le_trans (applyTxs_count cfg n.cache (n.height + 1) n.led txs d t) (hO.cnt d hd)
+  have hnl : ∀ d, n.height < d → ¬ listedAt (setTimeoutList cfg A.led (n.height + 1) (txs.map (·.1)) A.rcpts) d t := by
+    intro d hd hl
+    by_cases hdd : d = rec0.height
+    · obtain ⟨lst, e, hm⟩ := hl
+      rw [setTimeoutList_at cfg A.led (n.height + 1) (txs.map (·.1)) A.rcpts d hna] at e
+      refine listAfter_unlisted _ _ _ lst t (hnoadd d) (mem_remsAt_of (by rw [hdd]; exact hrem)) ?_ e hm
+      rw [curList_count]
+      exact hcntA d hd
+    · rcases setTimeoutList_listed _ _ _ _ _ d t hl with h1 | h1
+      · rw [← hAA] at h1
+        exact hdd (hO.only d hd (applyTxs_listed cfg n.cache (n.height + 1) n.led txs d t h1))
+      · exact hnoadd d h1
+  have hFA : FinalInv e0 A.led t st' := ⟨hPend.ordered, hPend.bound, hend⟩
+  refine ⟨?_, ?_⟩
+  · have := block_tail_final_stays cfg n txs t st' (by rw [hAA]; exact hFA)
+      (by rw [hAA]; exact fun hm => hnl (n.height + 1) (Nat.lt_succ_self _) (listedAt_of_mem_getTimeoutList hm))
+    exact this
+  · intro d hd hl
+    rw [execBlock_height] at hd
+    apply hnl d (by omega)
+    unfold execBlock at hl
+    simp only at hl
+    rw [hAA] at hl
+    refine (listedAt_congr ?_).mp hl
+    rw [getS_of_store (finalise_store _), setTimeoutRollback_frame _ _ _ (by intro x e; cases e) (by intro x e; cases e)]
+
 end Closed
 
 end Bxh.Props.C04
